@@ -22,7 +22,8 @@ def world(rng, v='1.1', two_versions=True, relrich=True):
     b1 = g.lexicon('b', '1', v, n_syn=rng.randint(2, 5), n_ent=rng.randint(1, 3), lang='de', ili_pool=pool, forms_pool=forms,
                    requires=[{'id': 'e', 'version': '1'}, {'id': 'zz', 'version': '0'}])
     u1 = g.lexicon('u', '1', v, n_syn=rng.randint(2, 5), n_ent=2, lang='ja', ili_pool=pool, forms_pool=forms)
-    W = {'a:1': a1, 'ax:1': ax, 'e:1': e1, 'b:1': b1, 'u:1': u1}
+    axx = g.extension('axx', ax, '1', v, with_forms=False)       # an extension of the extension
+    W = {'a:1': a1, 'ax:1': ax, 'axx:1': axx, 'e:1': e1, 'b:1': b1, 'u:1': u1}
     if two_versions:
         W['a:2'] = g.lexicon('a', '2', v, n_syn=rng.randint(2, 4), n_ent=rng.randint(2, 3), lang='en', ili_pool=pool, forms_pool=forms)
     if relrich:
